@@ -242,9 +242,10 @@ pub trait RiRefBufImpl: Sized + RiRefImpl {
 			Some(new_authority) => match parse::find_authority(bytes, 0) {
 				Ok(range) => unsafe { self.replace(range, new_authority.as_bytes()) },
 				Err(start) => {
-					if !bytes[start..].starts_with(b"/") {
+					let path_is_empty = matches!(bytes.get(start), None | Some(b'?' | b'#'));
+					if !path_is_empty && !bytes[start..].starts_with(b"/") {
 						// VALIDITY: When an authority is present, the path must
-						//           be absolute.
+						//           be absolute (or empty).
 						unsafe {
 							self.allocate(start..start, new_authority.len() + 3);
 							let bytes = self.as_mut_vec();
@@ -310,9 +311,9 @@ pub trait RiRefBufImpl: Sized + RiRefImpl {
 				bytes[start..actual_start].copy_from_slice(b"/.");
 				bytes[actual_start..(actual_start + path.len())].copy_from_slice(path.as_bytes())
 			}
-		} else if has_authority && path.is_relative() {
+		} else if has_authority && path.is_relative() && !path.as_bytes().is_empty() {
 			// VALIDITY: When an authority is present, the path must be
-			//           absolute.
+			//           absolute (or empty).
 			unsafe {
 				let start = range.start;
 				let actual_start = start + 1;
